@@ -17,20 +17,6 @@ import (
 //   spec  : check-c19 (exact rationals) on Go's output, only for positive coefficients
 //   oracle: a panic on valid props (tagged by class)
 
-
-
-
-
-
-
-
-
-
-
-
-
-
-
 func drawListsSX(seed int64, lists, k int) SX {
 	out := make(sxList, lists)
 	for i := range out {
@@ -151,8 +137,6 @@ func typedAlts(props interface{}) interface{} {
 	out["anchoringAlternatives"] = t
 	return out
 }
-
-
 
 func init() {
 	props["C19"] = func(o *Out, r *Rng, n int, thorough bool) {
